@@ -15,7 +15,11 @@ import (
 	"verifharness/lib"
 )
 
-const rule = "a case is non-trivial when its sources hold at least one byte in total; distinct = distinct (reader, parameters, sources with scripts, consumption mode/ops) tuples"
+const rule = "a case is non-trivial when its sources hold at least one byte in total; distinct = distinct (reader, parameters, sources with scripts, consumption mode/ops) tuples. " +
+	"The run mixes complete enumerations with seeded random families, so `exhaustive` is false. COMPLETE ENUMERATIONS (every element of the stated finite set is run): " +
+	"genLimit (N 0..16 x length 0..N+3 x all compositions up to length 5 [thorough 9] x 8 reader styles x listed buffers x Read/ReadAll/io.Copy wrapped/io.Copy direct; for longer sources a fixed set of boundary chunkings plus 2 random ones), " +
+	"genLimitZeroAtOffsets (one and two zero-length reads at every offset), the int64-boundary limit family, genMulti for 0..2 sources, genTee, genWriteToFailingWriter, genMultiFastPaths for 1 source (and 2 sources in thorough; a fixed quarter of the pairs in quick), genStd. " +
+	"SEEDED RANDOM: genMulti / genMultiFastPaths with 3..5 sources, genRandomLarge, genOps, concurrent Tee histories (teeconc, also under -race)"
 
 // workDir is where temp files for *os.File sources / writers go ("" = the system temp dir).
 var workDir string
@@ -272,7 +276,7 @@ func main() {
 	}
 	r.runTeeConc(f.Seed, nConc)
 	r.runRace(f, nRace)
-	res.Exhaustive = true
+	res.Exhaustive = false // complete enumerations are mixed with seeded random families; `rule` names which is which
 	res.Note("exhaustive part: limit N in 0..16 x source length 0..N+3 x (all compositions up to length " +
 		map[bool]string{false: "5", true: "9"}[thorough] + ", boundary chunkings above) x 8 reader styles x consumer buffers x {Read loop, io.ReadAll, io.Copy}; " +
 		"multi: 0..2 sources exhaustively over per-source options, 3..5 sampled; tee: all compositions x styles x writer capacities")
